@@ -75,6 +75,8 @@ def gen(rng, tier):
         cases.append(Case("hdk.derive %s %s" % (seed, hx(s)), tags=("derive",)))
     from vlib import routes
     cases += routes.add_routes(cases, rng, 80, tier)
+    # the deep valid paths (13..1000 components) through --hd-path / HD_PATH too: accepted means a key comes out
+    cases += routes.add_routes([c for c in cases if "deep" in c.tags and "valid" in c.tags], rng, 10 ** 6, "quick")
     # every boundary account index through the command line too (flag or environment)
     bset = set(BOUNDS) | {7, 2 ** 31 - 1, 2 ** 31 - 2}
     cases += routes.add_routes([c for c in cases if c.line.startswith("path.for_index ") and int(c.line.split(" ")[1]) in bset], rng, 10 ** 6, "quick")
